@@ -176,7 +176,7 @@ func c05Run(ops []c05Op, naddr int) (res c05Result, fail string) {
 }
 
 func TestC05(t *testing.T) {
-	V.Rule("unit: add/remove/dispatch histories on the round-robin pool with recording doubles - exhaustive for all sequences up to length 6 (thorough: 7) over 4 addresses (never adding a present address; removing an absent one allowed), rapid state-machine histories up to 400 steps over 5 addresses with dispatch bursts, histories up to 40 steps over the real UDP/TCP backend objects (one local address, receptions observed at harness sockets, closed-socket check on removal), and racing plans (dispatch goroutines vs add/remove goroutines, logical clock). non-trivial = history with a segment of k>=2 backends and >=k+1 dispatches that follows a removal; distinct by op string / plan")
+	V.Rule("unit: add/remove/dispatch histories on the round-robin pool with recording doubles - exhaustive for all sequences up to length 6 (thorough: 7) over 4 addresses (never adding a present address; removing an absent one allowed), rapid state-machine histories up to 400 steps over 5 addresses with dispatch bursts, histories up to 40 steps over the real UDP/TCP backend objects (one local address, receptions observed at harness sockets, closed-socket check on removal; the pool assembled from the constructors or, as the running proxy does, by CreateRoundRobinBackend over backend URLs and changed through hostIPChanged), and racing plans (dispatch goroutines vs add/remove goroutines, logical clock). non-trivial = history with a segment of k>=2 backends and >=k+1 dispatches that follows a removal; distinct by op string / plan")
 	V.Assume("across a membership change the property fixes nothing about where the rotation resumes, so the oracle does not either")
 	V.Require("segment after removal", "dispatch on empty pool", "remove absent address")
 
@@ -439,7 +439,7 @@ func c05Real(t *testing.T) {
 	if os.Getenv("VERIF_RACE") != "" {
 		return
 	}
-	V.Require("real sockets: dispatch after a removal", "real sockets: backend added after a removal", "real sockets: tcp backend")
+	V.Require("real sockets: pool built by CreateRoundRobinBackend, changed through hostIPChanged", "real sockets: dispatch after a removal", "real sockets: backend added after a removal", "real sockets: tcp backend")
 	n := labReserve()
 	hub := newLabHub()
 	const naddr = 5
@@ -473,11 +473,46 @@ func c05Real(t *testing.T) {
 		V.HarnessError(t, "%v", err)
 	}
 	rcheck(t, "real-sockets", V.N(120, 1500), func(rt *rapid.T) {
-		rb := NewRoundRobinBackend()
-		defer rb.Close()
+		// The pool is assembled either from the constructors directly or the way the
+		// running proxy does it: CreateRoundRobinBackend over the configured backend
+		// URLs, later additions and removals through hostIPChanged (the entry point
+		// of the resolver's notifications).
+		viaConfig := rapid.Bool().Draw(rt, "pool built by CreateRoundRobinBackend / changed by hostIPChanged")
+		var rb *RoundRobinBackend
 		cur := map[int]Backend{}
-		var seg []int
 		var hist []string
+		if viaConfig {
+			V.Class("real sockets: pool built by CreateRoundRobinBackend, changed through hostIPChanged")
+			k0 := rapid.IntRange(1, 3).Draw(rt, "configured")
+			var urls []string
+			first := rapid.IntRange(0, naddr-1).Draw(rt, "first configured")
+			for j := 0; j < k0; j++ {
+				a := (first + j) % naddr
+				urls = append(urls, fmt.Sprintf("%s://%s:5080", targets[a].proto, targets[a].ip))
+				hist = append(hist, fmt.Sprintf("cfg%d", a))
+			}
+			var err error
+			rb, err = CreateRoundRobinBackend(local, urls, func(net.Conn) {})
+			if err != nil || rb == nil {
+				failf(rt, "CreateRoundRobinBackend(%q, %v) failed: %v", local, urls, err)
+			}
+			all := rb.GetAllBackend()
+			for j := 0; j < k0; j++ {
+				a := (first + j) % naddr
+				cur[a] = all[targets[a].ip+":5080"]
+				if cur[a] == nil {
+					failf(rt, "CreateRoundRobinBackend(%q, %v): configured backend %s:5080 is not registered (registered: %d)", local, urls, targets[a].ip, len(all))
+				}
+			}
+		} else {
+			rb = NewRoundRobinBackend()
+		}
+		defer func() {
+			for _, b := range rb.GetAllBackend() {
+				b.Close()
+			}
+		}()
+		var seg []int
 		removed, addedAfterRemoval := false, false
 		steps := rapid.IntRange(1, 40).Draw(rt, "steps")
 		for i := 0; i < steps; i++ {
@@ -491,6 +526,21 @@ func c05Real(t *testing.T) {
 				tg := targets[a]
 				var b Backend
 				var err error
+				if viaConfig {
+					rb.hostIPChanged(tg.proto, local, "pool.test", []string{tg.ip}, nil, "5080", func(net.Conn) {})
+					b = rb.GetAllBackend()[tg.ip+":5080"]
+					if b == nil {
+						failf(rt, "step %d of %v: address %s reported as new by the resolver did not join the pool", i+1, hist, tg.ip)
+					}
+					V.ClassIf(tg.proto == "tcp", "real sockets: tcp backend")
+					cur[a] = b
+					seg = nil
+					hist = append(hist, fmt.Sprintf("+%d", a))
+					if removed {
+						addedAfterRemoval = true
+					}
+					continue
+				}
 				if tg.proto == "udp" {
 					b, err = NewUDPBackend(local, fmt.Sprintf("%s:5080", tg.ip))
 				} else {
@@ -509,7 +559,11 @@ func c05Real(t *testing.T) {
 				}
 			case op == 1: // remove (absent addresses too)
 				b, present := cur[a]
-				rb.RemoveBackend(fmt.Sprintf("%s:5080", targets[a].ip))
+				if viaConfig {
+					rb.hostIPChanged(targets[a].proto, local, "pool.test", nil, []string{targets[a].ip}, "5080", func(net.Conn) {})
+				} else {
+					rb.RemoveBackend(fmt.Sprintf("%s:5080", targets[a].ip))
+				}
 				hist = append(hist, fmt.Sprintf("-%d", a))
 				if !present {
 					continue
